@@ -219,6 +219,7 @@ type Obl struct {
 	Text    string
 	Replay  *ReplayInfo
 	vacDone bool
+	forceReplay bool // search for a failing input with the relaxed query although the solver gave no model
 }
 
 type Exec struct {
